@@ -89,7 +89,7 @@ S_BLUE = ['str', 'blue']
 
 def M(mid, classes, doctypes, keys, scalars, reg=None, qtags=('seq',),
       mtags=('map',), oddkeys=(), stags=(), family='load', note='',
-      qn=4, tn=5, strs=(), dump=True, rtypes=None,
+      qn=4, tn=None, strs=(), dump=True, rtypes=None,
       qo=4, to=5, an=None, rootk='', nodup=False, aliask=('s', 'q', 'm'),
       cyc=True):
     names = [c['name'] for c in classes]
@@ -101,7 +101,8 @@ def M(mid, classes, doctypes, keys, scalars, reg=None, qtags=('seq',),
         'stags': list(stags),      # extra explicit tags tried on scalars
         'qtags': list(qtags), 'mtags': list(mtags),
         'oddkeys': [list(s) for s in oddkeys],
-        'family': family, 'note': note, 'qn': qn, 'tn': tn,
+        'family': family, 'note': note, 'qn': qn,
+        'tn': tn if tn is not None else qn,
         'strs': list(strs), 'dump': dump, 'qo': qo, 'to': to, 'an': an if an is not None else qn,
         'rootk': rootk, 'nodup': nodup, 'aliask': list(aliask), 'cyc': cyc,
         'rtypes': list(doctypes if rtypes is None else rtypes),
@@ -130,24 +131,24 @@ def models():
     ms.append(M('plain', [pt], [K('Pt'), L(K('Pt')), D(K('Pt')),
                                 U(K('Pt'), INT), Opt(K('Pt'))],
                 keys=['x', 'y', 'z'], scalars=[S_42, S_ABC, S_15],
-                mtags=('map', '!Pt', '!Unknown'), oddkeys=[S_42]))
+                mtags=('map', '!Pt', '!Unknown'), oddkeys=[S_42], tn=5))
     # ---- _yatiml_extra, untyped and Any parameters -------------------------
     ex = C('Ex', [P('a', INT), P('u'), P('w', ANY, ['null'])], extra=True)
     inner = C('In', [P('v', INT)])
     ms.append(M('extra', [ex, inner], [K('Ex')],
                 keys=['a', 'u', 'w', 'q', 'v'], scalars=[S_42, S_ABC],
                 mtags=('map', '!In', '!Unknown'), stags=['!In', '!Unknown'],
-                oddkeys=[S_42], qo=6, to=7, strs=['abc', '42']))
+                oddkeys=[S_42], qo=6, to=7, strs=['abc', '42'], tn=5))
     # ---- dashed keys with and without dashes_to_unders ---------------------
     da = C('Da', [P('my_attr', INT), P('o_p', STR, ['str', 'd'])])
     ms.append(M('dashed', [da], [K('Da')],
                 keys=['my_attr', 'my-attr', 'o_p', 'o-p'],
-                scalars=[S_42, S_ABC]))
+                scalars=[S_42, S_ABC], tn=5))
     ds = C('Ds', [P('my_attr', INT), P('o_p', STR, ['str', 'd'])],
            sav=['dashes_to_unders'])
     ms.append(M('dashed_sav', [ds], [K('Ds')],
                 keys=['my_attr', 'my-attr', 'o_p', 'o-p'],
-                scalars=[S_42, S_ABC], an=5, aliask=('q', 'm')))
+                scalars=[S_42, S_ABC], an=5, aliask=('q', 'm'), tn=5))
     # ---- enums and string-likes --------------------------------------------
     col = C('Col', kind='enum', members=['red', 'blue', 'true'])
     sl = C('Sl', kind='strlike', rejects=['abc'])
@@ -185,7 +186,7 @@ def models():
            sav=['rename', 'tt', 't'])
     ms.append(M('hooks', [ba, mi, le], [K('Ba'), L(K('Ba'))],
                 keys=['p', 'pp', 'q', 't', 'tt'], scalars=[S_42, S_ABC],
-                rtypes=[]))
+                rtypes=[], tn=5))
     # ---- adversarial hooks: permissive recogniser + corrupting savorize ----
     pr = C('Pr', [P('a', INT)], recog=['permissive'])
     cs = C('Cs', [P('a', INT), P('b', STR, ['str', 'd'])],
@@ -205,7 +206,7 @@ def models():
     ms.append(M('parsed', [pa, hp], [K('Pa'), L(K('Pa')), U(K('Pa'), INT),
                                      K('Hp')],
                 keys=['txt', 's', 'p'], scalars=[S_ABC, S_42], rtypes=[],
-                an=5))
+                an=5, tn=5))
     # ---- custom discriminators ---------------------------------------------
     an = C('An', [P('kind', STR), P('v', INT)], abstract=True)
     ca = C('Ca', [P('kind', STR), P('v', INT)], bases=['An'],
@@ -216,18 +217,18 @@ def models():
            recog=['require_value', 'n', 'int', '42'])
     ms.append(M('discrim', [an, ca, cb, ce], [K('An'), L(K('An')), K('Ce')],
                 keys=['kind', 'v', 'n'], scalars=[S_42, S_RED, S_BLUE],
-                stags=['int'], mtags=('map', '!Ca', '!Cb'), rtypes=[]))
+                stags=['int'], mtags=('map', '!Ca', '!Cb'), rtypes=[], tn=5))
     # ---- ambiguity: two indistinguishable subclasses -----------------------
     am = C('Am', [P('a', INT)])
     a1 = C('A1', [P('a', INT)], bases=['Am'])
     a2 = C('A2', [P('a', INT)], bases=['Am'])
     ms.append(M('ambig', [am, a1, a2], [K('Am'), U(K('A1'), K('A2'))],
                 keys=['a'], scalars=[S_42],
-                mtags=('map', '!A1', '!A2', '!Am', '!Unknown'), rtypes=[]))
+                mtags=('map', '!A1', '!A2', '!Am', '!Unknown'), rtypes=[], tn=5))
     # ---- raising constructors ----------------------------------------------
     ir = C('Ir', [P('a', INT)], init_raises=True)
     ms.append(M('raising', [ir, sl], [K('Ir'), K('Sl'), L(K('Ir'))],
-                keys=['a'], scalars=[S_42, S_ABC], rtypes=[]))
+                keys=['a'], scalars=[S_42, S_ABC], rtypes=[], tn=5))
 
     # ---- required parameter whose type admits None --------------------------
     oq = C('Oq', [P('a', Opt(INT)), P('b', INT, ['int', '0'])])
